@@ -425,8 +425,9 @@ def _stretch_case(rng):
     if form == 1:
         hi = rng.choice([bhi, 1, 0, rng.randint(0, bhi), rng.randint(0, min(bhi, 300))])
     elif form == 2:
-        lo = rng.choice([blo, 0, rng.randint(blo, bhi), rng.randint(max(blo, -300), min(bhi, 300))])
-        hi = rng.choice([bhi, lo, lo + 1 if lo < bhi else lo, rng.randint(lo, bhi), rng.randint(lo, min(bhi, lo + 300))])
+        lo = rng.choice([blo, 0, rng.randint(blo, bhi), rng.randint(max(blo, -300), min(bhi, 300)), max(blo, -rng.randint(1, 100))])
+        # (an upper bound of exactly 0 above a negative lower bound is a legitimate request, falsy in Python)
+        hi = rng.choice([bhi, lo, lo + 1 if lo < bhi else lo, rng.randint(lo, bhi), rng.randint(lo, min(bhi, lo + 300)), 0 if lo <= 0 <= bhi else bhi])
     return dict(kind='stretch', dtype=dtype, shape=shape, data=data, form=form, lo=int(lo), hi=int(hi), out=out,
                 rgb=rgb, layout=rng.choice(gen.LAYOUTS), cls=cls)
 
